@@ -1376,6 +1376,7 @@ enum cc_stat cc_list_iter_remove(CC_ListIter *iter, void **out)
 
     void *e = unlinkn(iter->list, iter->last);
     iter->last = NULL;
+    iter->index--;
 
     if (out)
         *out = e;
@@ -1747,6 +1748,7 @@ enum cc_stat cc_list_zip_iter_remove(CC_ListZipIter *iter, void **out1, void **o
 
     iter->l1_last = NULL;
     iter->l2_last = NULL;
+    iter->index--;
 
     if (out1)
         *out1 = e1;
